@@ -187,6 +187,7 @@ type csAn struct {
 	deferred bool
 	sections int
 	unlock   string
+	rlocked  bool // the section is held with RLock: shared state may be read, not written
 	tainted  map[string]bool
 	events   []csEvent
 	depth    int
@@ -337,6 +338,12 @@ func (a *csAn) check(n ast.Node, st csState) {
 				a.ok = false
 				return false
 			}
+			if name == "delete" && len(v.Args) > 0 && a.rootField(v.Args[0]) != "" {
+				a.events = append(a.events, csEvent{"write:" + a.rootField(v.Args[0]), st})
+				if st != csHeld || a.rlocked {
+					a.ok = false // delete(map, key) on shared state outside the section, or under a read lock
+				}
+			}
 			a.events = append(a.events, csEvent{"call:" + name, st})
 		case *ast.SelectorExpr:
 			if id, ok := v.X.(*ast.Ident); ok && id.Name == a.recv {
@@ -420,6 +427,7 @@ func (a *csAn) walk(list []ast.Stmt, st csState) (csState, bool) {
 				}
 				st = csHeld
 				a.unlock = un
+				a.rlocked = strings.HasSuffix(name, ".RLock")
 				a.sections++
 				continue
 			}
@@ -475,8 +483,8 @@ func (a *csAn) walk(list []ast.Stmt, st csState) (csState, bool) {
 				}
 				if f := a.rootField(l); f != "" {
 					a.events = append(a.events, csEvent{"write:" + f, st})
-					if st != csHeld {
-						a.ok = false
+					if st != csHeld || a.rlocked {
+						a.ok = false // a write outside the section, or under a read lock
 					}
 				}
 				a.check(l, st)
@@ -487,7 +495,7 @@ func (a *csAn) walk(list []ast.Stmt, st csState) (csState, bool) {
 		case *ast.IncDecStmt:
 			if f := a.rootField(v.X); f != "" {
 				a.events = append(a.events, csEvent{"write:" + f, st})
-				if st != csHeld {
+				if st != csHeld || a.rlocked {
 					a.ok = false
 				}
 			}
